@@ -126,6 +126,7 @@ pub fn post_common(pre: &Snap, post: &Snap, f: &F, rt: &LogRt, cx: Ctx) {
     vassert!(!rt.overflow && !f.codec.log.overflow, "harness: effect logs large enough");
 
     // ---- Inv is inductive -------------------------------------------------
+    vassert!(own_addr_never_active(f), "c09+c19: the instance's own address is never an active member (so no destination choice can pick it)");
     vassert!(inv_holds(f), "c09: representation invariant preserved (one record per address, own address never active, active count exact, Connected => has members, probe state coherent)");
 
     // ---- C08: notifications mirror the membership -------------------------
